@@ -70,9 +70,11 @@ NoGtRow == [gt |-> Row3(HET, HOM1, HET).gt, bad |-> FALSE, fmt |-> "nogt"]
 MCSeq_fmt == SeqsUpTo({Row3(HET, HOM1, HET), Row3(HOM0, HET, HOM1), NoGtRow, Row3(MISS, HOM1, HET)}, 3)
 \* records with the SAME allele counts per population but different numbers of called chromosomes, distributed differently over
 \* the populations (and one complete record): whatever is remembered from one projected record must not be reused for the next
-CacheRows == {Row3(MISS, HET, HOM0), Row3(HET, HOM0, MISS), Row3(HOM0, HET, MISS), Row3(HET, MISS, HOM0), Row3(HET, HOM0, HOM0)}
-MCSeq_cache == SeqsUpTo(CacheRows, 3)
-ListsTwoPop == {<<E("s1", "A"), E("s10", "A"), E("s2", "B")>>, <<E("s1", "A"), E("s10", "B"), E("s2", "B")>>}
+\* ... and records whose allele COUNTS equal the called TOTALS of another one (2 and 2, or 4)
+CacheRows == {Row3(MISS, HET, HOM0), Row3(HET, HOM0, MISS), Row3(HOM0, HET, MISS), Row3(HET, MISS, HOM0), Row3(HET, HOM0, HOM0),
+              Row3(HOM1, HOM0, HOM1), Row3(HOM1, HOM1, HOM0)}
+MCSeq_cache == SeqsUpTo(CacheRows, 2) \cup {<<x, Row3(HET, HOM0, HOM0), y>> : x \in CacheRows, y \in CacheRows}
+ListsTwoPop == {<<E("s1", "A"), E("s10", "A"), E("s2", "B")>>, <<E("s1", "A"), E("s10", "B"), E("s2", "B")>>, AllMarker}
 \* sample names that look like something else to a careless parser: a leading '#' (a comment?), a name with a blank
 SH == {"s1", "#s2", "s 3"}
 RowH(x, y, z) == [gt |-> [s \in SH |-> IF s = "s1" THEN x ELSE IF s = "#s2" THEN y ELSE z], bad |-> FALSE]
